@@ -88,8 +88,9 @@ def explain(path):
             elif k == "compute":
                 out.append("%2d: engine[%d].compute()   # judged: C06 vs fresh engine, C04 on getLayers()" % (i, op[1]))
             elif k == "abort_compute":
-                out.append("%2d: engine[%d].compute()   # FAULT: %s raised at %.1f%% of the line events in scope %s" % (
-                    i, op[1], op[4] if len(op) > 4 else "SimAbort", op[2] / 10000.0, op[3] if len(op) > 3 else "any"))
+                out.append("%2d: engine[%d].compute()   # FAULT: %s raised at %.1f%% of the line events in scope %s%s" % (
+                    i, op[1], op[4] if len(op) > 4 else "SimAbort", op[2] / 10000.0, op[3] if len(op) > 3 else "any",
+                    (" (of executed function no. %d mod count in that scope)" % op[5]) if len(op) > 5 else ""))
             elif k == "stack_compute":
                 out.append("%2d: engine[%d].compute()   # FAULT: recursion limit = depth + %d" % (i, op[1], op[2]))
             elif k == "write_option":
